@@ -539,8 +539,10 @@ Definition unref (s : core) (fd : Z) : Prop :=
 Definition unrefR (s : core) (p : Z) : Prop :=
   (forall j', rw_reg s j' = true -> rw_rfd s j' <> p) /\ (active_ref s = 1 -> active_fd s <> p).
 
+Definition is_pipe (v : vfd) : bool := (vkind v =? K_PIPE_R) || (vkind v =? K_PIPE_W).
+
 Lemma pipe_ok_close : forall k fd r w, r <> fd -> w <> fd ->
-  (forall v, k_open k fd = Some v -> r <> vpeer v) ->
+  (forall v, k_open k fd = Some v -> is_pipe v = true -> r <> vpeer v) ->
   pipe_ok k r w -> pipe_ok (fst (k_close k fd)) r w.
 Proof.
   intros k fd r w N1 N2 P (X & Y & v & vw & A & B & C & D & E & F & G).
@@ -568,7 +570,7 @@ Proof.
 Qed.
 
 Lemma set_kern_close_ok : forall s fd, InvE s -> unref s fd ->
-  (forall v, k_open (kern s) fd = Some v -> unrefR s (vpeer v)) ->
+  (forall v, k_open (kern s) fd = Some v -> is_pipe v = true -> unrefR s (vpeer v)) ->
   InvE (set_kern s (fst (k_close (kern s) fd))).
 Proof.
   intros s fd [A B C D E G H] (U1 & U2 & U3) UP.
@@ -586,7 +588,7 @@ Proof.
     + intros k L. apply OPN; [|apply (fv_open _ _ A); assumption]. apply U1. apply live_none in L. tauto.
     + intros EE. destruct (fv_poll_excl _ _ A EE) as [P Q]. split; [assumption|].
       destruct (ep k') as [|e l] eqn:EP; [reflexivity|]. exfalso.
-      assert (In e (ep (kern s))) by (apply S4; rewrite EP; left; reflexivity). rewrite Q in *. contradiction.
+      assert (X : In e (ep (kern s))) by (apply (proj1 (S4 e)); try rewrite EP; left; reflexivity). rewrite Q in X. contradiction.
     + intros e He. apply S4 in He. apply (fv_ent _ _ A). tauto.
     + intros EE k L R. destruct (fv_has _ _ A EE k L R) as (e & He & F1 & F2). exists e. split; [|tauto].
       apply S4. split; [assumption|]. intros _. rewrite F1. apply U1. apply live_none in L. tauto.
@@ -599,22 +601,22 @@ Proof.
   - intros k. apply sync_at_same with (s := s); try reflexivity. apply B.
   - destruct C. constructor; sp; try assumption.
     + intros j J. specialize (dy_kern j J). destruct (U2 j J) as [N1 N2]. destruct (efd_raw s =? 0).
-      * apply pipe_ok_close; try assumption. intros v O. apply (UP v O). assumption.
+      * apply pipe_ok_close; try assumption. intros v O PK. apply (UP v O PK). assumption.
       * apply evfd_ok_close; assumption.
     + rewrite S2. assumption.
     + rewrite S2. assumption.
     + intros Q. destruct (dy_act Q) as (X & (v & V1 & V2) & W). destruct (U3 Q) as [N1 N2]. split; [assumption|]. split.
       * destruct (k_open_close_other (kern s) fd _ v N1 V1) as (v' & Q1 & Q2). exists v'. split; [assumption|]. rewrite Q2. assumption.
       * destruct W as [W|W]; [left; assumption|right]. apply pipe_ok_close; try assumption.
-        intros v0 O. apply (UP v0 O). assumption.
+        intros v0 O PK. apply (UP v0 O PK). assumption.
     + destruct dy_tfd as [T|(T & v & V1 & V2)]; [left; assumption|right]. split; [assumption|].
       destruct (S7 _ v V1) as (v' & Q1 & Q2 & _). exists v'. split; congruence.
     + intros e He Q. apply S4 in He. destruct He as [He NF]. destruct (dy_tfdent e He Q) as (v & V1 & V2).
       assert (TF : en_fd e = tfd s).
       { destruct (fv_ent _ _ A e He) as [((L&_)&_)|[(L&_)|(_&L1&_)]]; [destruct L; lia|lia|assumption]. }
       assert (N : tfd s <> fd).
-      { rewrite <- TF. apply NF. rewrite <- TF in V1. congruence. }
-      destruct (k_open_close_other (kern s) fd _ v N V1) as (v' & Q1 & Q2). exists v'. split; congruence.
+      { intro EQ. apply NF; [rewrite <- EQ; congruence|congruence]. }
+      destruct (k_open_close_other (kern s) fd _ v N V1) as (v' & Q1 & Q2). exists v'. split; [exact Q1|congruence].
   - exact D.
   - apply (TaskInv_same s); [reflexivity..|exact E].
   - destruct G. constructor; assumption.
@@ -625,10 +627,10 @@ Proof.
 Qed.
 
 Lemma do_close_ok : forall s fd, InvE s -> unref s fd ->
-  (forall v, k_open (kern s) fd = Some v -> unrefR s (vpeer v)) ->
+  (forall v, k_open (kern s) fd = Some v -> is_pipe v = true -> unrefR s (vpeer v)) ->
   let s' := do_close s fd in
   InvE s' /\ Fr s s' /\ coresame (set_kern s (kern s')) s' /\
-  (forall x, x <> fd -> (forall v, k_open (kern s) fd = Some v -> x <> vpeer v) -> k_get (kern s') x = k_get (kern s) x) /\
+  (forall x, x <> fd -> (forall v, k_open (kern s) fd = Some v -> is_pipe v = true -> x <> vpeer v) -> k_get (kern s') x = k_get (kern s) x) /\
   (k_open (kern s) fd <> None -> k_open (kern s') fd = None) /\
   (forall x v, k_open (kern s') x = Some v -> exists v0, k_open (kern s) x = Some v0 /\ vkind v0 = vkind v /\ vpeer v0 = vpeer v).
 Proof.
@@ -636,17 +638,15 @@ Proof.
   destruct (k_close_spec (kern s) fd) as (S1 & S2 & S3 & S4 & S5 & S6 & S7 & S8 & S9). cbv zeta in *.
   assert (BACK : forall x v, k_open (fst (k_close (kern s) fd)) x = Some v ->
             exists v0, k_open (kern s) x = Some v0 /\ vkind v0 = vkind v /\ vpeer v0 = vpeer v).
-  { intros x v O. apply k_open_get in O. destruct O as [G C].
-    destruct (k_get (kern s) x) as [v0|] eqn:Z; [|rewrite (S8 x Z) in G; discriminate].
-    destruct (S7 x v0 Z) as (v' & Q1 & Q2 & Q3 & Q4). rewrite G in Q1. injection Q1 as <-.
-    exists v0. split; [|split; congruence]. apply k_get_open; [assumption|].
-    destruct (Z.eq_dec x fd) as [->|N]; [|rewrite <- (Q4 N); assumption].
-    destruct (k_open (kern s) fd) eqn:OO; [|apply k_get_open in Z; [congruence|]].
-    - rewrite S9 in *; [|congruence]. unfold k_open in S9. 
-      assert (k_open (fst (k_close (kern s) fd)) fd = None) by (apply S9; congruence).
-      unfold k_open in H. rewrite G, C in H. discriminate.
-    - destruct (vclosed v0) eqn:CC; [|reflexivity]. exfalso.
-      unfold k_close in G. rewrite OO in G. cbn [fst] in G. rewrite Z in G. injection G as <-. congruence. }
+  { intros x v O. destruct (k_open (kern s) fd) as [vf|] eqn:OO.
+    - assert (N : x <> fd).
+      { intro; subst x. rewrite S9 in O; [discriminate|congruence]. }
+      apply k_open_get in O. destruct O as [G C].
+      destruct (k_get (kern s) x) as [v0|] eqn:Z; [|rewrite (S8 x Z) in G; discriminate].
+      destruct (S7 x v0 Z) as (v' & Q1 & Q2 & Q3 & Q4). rewrite G in Q1. injection Q1 as <-.
+      exists v0. split; [|split; congruence]. apply k_get_open; [assumption|]. rewrite <- (Q4 N). assumption.
+    - assert (EQ : fst (k_close (kern s) fd) = kern s) by (unfold k_close; rewrite OO; reflexivity).
+      rewrite EQ in O. exists v. tauto. }
   unfold do_close. destruct (k_close (kern s) fd) as [k1 ok] eqn:KC. cbn [fst] in *.
   assert (NW : nwait k1 = nwait (kern s)) by assumption.
   destruct ok; cbv zeta; sp.
@@ -654,4 +654,66 @@ Proof.
     split; [constructor; sp; try reflexivity; try lia; try tauto|].
     split; [cs_refl|]. tauto.
   - split; [exact I1|]. split; [apply Fr_set_kern; assumption|]. split; [cs_refl|]. tauto.
+Qed.
+
+(* ---------- iv_event_raw_unregister ---------- *)
+Definition close_pair (s : core) (r w : Z) : core :=
+  let s := do_close s r in if efd_raw s =? 0 then do_close s w else s.
+
+Lemma do_close_set_rw : forall s fd a b c, set_rw (do_close s fd) a b c = do_close (set_rw s a b c) fd.
+Proof.
+  intros. unfold do_close. change (kern (set_rw s a b c)) with (kern s).
+  destruct (k_close (kern s) fd) as [k1 ok]. destruct ok; reflexivity.
+Qed.
+Lemma do_close_efd_raw : forall s fd, efd_raw (do_close s fd) = efd_raw s.
+Proof. intros. unfold do_close. destruct (k_close (kern s) fd) as [k1 ok]. destruct ok; reflexivity. Qed.
+Lemma do_close_rw : forall s fd, rw_reg (do_close s fd) = rw_reg s /\ rw_rfd (do_close s fd) = rw_rfd s /\
+  rw_wfd (do_close s fd) = rw_wfd s.
+Proof. intros. unfold do_close. destruct (k_close (kern s) fd) as [k1 ok]. destruct ok; repeat split. Qed.
+
+Lemma raw_unregister_unfold : forall s j,
+  raw_unregister s j =
+  bind (fd_unregister s (RAW_KEY j)) (fun s1 =>
+    R (close_pair (set_rw s1 (upd (rw_reg s1) j false) (rw_rfd s1) (rw_wfd s1)) (rw_rfd s1 j) (rw_wfd s1 j))).
+Proof.
+  intros s j. unfold raw_unregister. destruct (fd_unregister s (RAW_KEY j)) as [s1|s1]; [|reflexivity].
+  cbn [bind]. f_equal. unfold close_pair. cbv zeta.
+  set (a := upd (rw_reg s1) j false).
+  rewrite !do_close_efd_raw. change (efd_raw (set_rw s1 a (rw_rfd s1) (rw_wfd s1))) with (efd_raw s1).
+  destruct (do_close_rw s1 (rw_rfd s1 j)) as (E1 & E2 & E3).
+  destruct (efd_raw s1 =? 0).
+  - destruct (do_close_rw (do_close s1 (rw_rfd s1 j)) (rw_wfd (do_close s1 (rw_rfd s1 j)) j)) as (G1 & G2 & G3).
+    rewrite G1, G2, G3, E1, E2, E3. rewrite !do_close_set_rw. reflexivity.
+  - rewrite E1, E2, E3. rewrite do_close_set_rw. reflexivity.
+Qed.
+
+(* DynInv after the descriptor of raw event j has been unregistered and the raw event dropped *)
+Lemma DynInv_unreg : forall s s1 j, DynInv s -> FdStep (16 + j) s s1 -> 0 <= j <= 16 ->
+  registered (fdt s1 (16 + j)) = false ->
+  DynInv (set_rw s1 (upd (rw_reg s1) j false) (rw_rfd s1) (rw_wfd s1)).
+Proof.
+  intros s s1 j D S J RF. pose proof (fs_rest _ _ _ S) as RS. pose proof (fs_kctl _ _ _ S) as K.
+  assert (FL : flt (kern s1) = flt (kern s)) by (destruct K as (_&_&_&_&->); reflexivity).
+  destruct D. constructor; sp; rewrite ?(rs_rr _ _ RS), ?(rs_rf _ _ RS), ?(rs_rwf _ _ RS), ?(rs_er _ _ RS),
+    ?(rs_ar _ _ RS), ?(rs_af _ _ RS), ?(rs_aw _ _ RS), ?(rs_tfd _ _ RS), ?FL.
+  - intros j0. unfold upd. destruct (Z.eqb_spec j0 j); [discriminate|auto].
+  - intros j0 J0. unfold upd. destruct (Z.eqb_spec j0 j) as [->|N]; [assumption|].
+    rewrite (fs_reg _ _ _ S) by lia. auto.
+  - intros j0. unfold upd. destruct (Z.eqb_spec j0 j) as [->|N]; [discriminate|]. intros J0.
+    destruct (fs_hsame _ _ _ S (16 + j0)) as (A&B&C&E&_). rewrite A, B, C, E. auto.
+  - intros j0. unfold upd. destruct (Z.eqb_spec j0 j) as [->|N]; [discriminate|]. intros J0.
+    specialize (dy_kern j0 J0). destruct (efd_raw s =? 0); [eapply pipe_ok_kctl|eapply evfd_ok_kctl]; eassumption.
+  - assumption.
+  - intros U j0. unfold upd. destruct (Z.eqb_spec j0 j) as [->|N]; [discriminate|]. apply (dy_mode1 U).
+  - assumption.
+  - intros k0 K0. destruct (fs_hsame _ _ _ S k0) as (_&B&C&E&_). unfold hids_ok. rewrite B, C, E. apply (dy_userh k0 K0).
+  - intros Q. destruct (dy_act Q) as (X & (v & V1 & V2) & W). split; [assumption|]. split.
+    + exists v. rewrite (kctl_open _ _ _ K). tauto.
+    + destruct W as [W|W]; [left; assumption|right; eapply pipe_ok_kctl; eassumption].
+  - assumption.
+  - intros Q j0. unfold upd. destruct (Z.eqb_spec j0 j) as [->|N]; [discriminate|]. auto.
+  - destruct dy_tfd as [T|(T & v & V1 & V2)]; [left; assumption|right]. split; [assumption|].
+    exists v. rewrite (kctl_get _ _ _ K). tauto.
+  - intros e He Q. rewrite (kctl_open _ _ _ K). apply (dy_tfdent e); [|assumption].
+    apply (fs_epneg _ _ _ S); [lia|assumption].
 Qed.
